@@ -111,6 +111,9 @@ def line(req):
     if op in ('readsig', 'stext', 'pieces', 'resplit', 'readsigtext'):
         from . import real_r8
         return real_r8.line(req)
+    if op == 'examine':
+        from . import real_r9
+        return real_r9.line(req)
     if op == 'stream-timeout':
         return 'stream-timeout %s' % (req[1],)
     raise core.HarnessError('unknown op %r' % (op,))
@@ -191,6 +194,9 @@ def parse_model(req, ml):
     if op in ('readsig', 'stext', 'pieces', 'resplit', 'readsigtext'):
         from . import real_r8
         return real_r8.parse_model(req, ml)
+    if op == 'examine':
+        from . import real_r9
+        return real_r9.parse_model(req, ml)
     return core.parse_model_answer(ml)
 
 
@@ -326,6 +332,9 @@ def _real(req, plain, mk, disturb=False):
     from . import real_r8
     if op in real_r8.OPS:
         return real_r8.OPS[op](req)
+    from . import real_r9
+    if op in real_r9.OPS:
+        return real_r9.OPS[op](req)
     raise core.HarnessError('unknown op %r' % (op,))
 
 
